@@ -25,6 +25,7 @@ Case genRc(bool open) {
     int kind = (int)G::range(0, 7);
     Path64 p;
     int nv = (int)G::range(open ? 2 : 3, 10);
+    if (G::chance(1) && G::chance(open ? 60 : 25)) { nv = (int)G::range(60, open ? 400 : 200); ST.count("large_path_60_to_400_vertices"); }   // size-dependent behaviour (container growth)
     int64_t ext = std::min<int64_t>((int64_t(1) << 40) - std::max(std::abs(r.l), std::abs(r.r)) - 1, std::max<int64_t>(W, H) + 5);
     ext = std::max<int64_t>(ext, 1);
     if (kind == 0) {            // entirely inside
